@@ -12,6 +12,19 @@ CLAIMS = {
             'ABCD-matrix oracle; one-surface step contract extends the recurrence to any K by induction.',
             'floats modelled as exact reals + IEEE specials; bounds per harness in the evidence; oracle = 2x2 matrices on (y, nu) with index sign reversal at mirrors'),
 }
+CLAIMS.update({
+    'C01': ('Bounded symbolic model checking of the real Optic / SurfaceGroup / SurfaceFactory / Pickup / Solve / Variable code: '
+            'building (K<=4 quick, 6 thorough; every surface type; symbolic stop flags) and ONE edit step from an arbitrary K=3 prescription '
+            '(inductive step => histories of any length), pairs of edits, pickups, solves; read-back and frame conditions are SMT queries over '
+            'all numeric arguments, decided unsat.',
+            'floats as exact reals + IEEE specials; induction over history length is a paper argument on top of the solver-decided step; '
+            'K bounded as stated; catalogue materials not involved (IdealMaterial with symbolic index)'),
+    'C02': ('Bounded symbolic model checking of RealRays.refract/reflect, CoordinateSystem.localize/globalize, Plane/StandardGeometry '
+            'distance and normal, Surface._trace_real orchestration and a 2-surface wiring run: per-surface step contracts from an arbitrary '
+            'incoming ray (unit direction, any normal, any indices) are SMT queries (vector Snell law, unit norm, half-space, on-surface, '
+            'nearest root, OPD), decided unsat; induction over surfaces lifts them to any lens of such surfaces.',
+            'floats as exact reals; one ray per trace; conic step contract for hits on the vertex sheet; Newton-Raphson geometries only in the thorough tier with a bounded unrolling; tangent rays (d.n = 0) excluded'),
+})
 NOT_YET = 'check not built yet in this round (work in progress; see DESIGN.md section 6 for the plan)'
 
 props = [json.loads(l) for l in open(os.path.join(ROOT, 'properties.jsonl'))]
